@@ -186,10 +186,16 @@ class C07(Prop):
             'values': values.value_recipes(values.FRIENDLY * 4 + values.HOSTILE_KINDS, min_nodes=3,
                                            max_nodes=14 if big else 9, max_items=5, str_keys_only=True),
             'idx': st.lists(st.integers(0, 13), min_size=3, max_size=3),
-            'watches': st.lists(st.sampled_from(WATCHES), max_size=3),
+            'watches': st.one_of(st.lists(st.sampled_from(WATCHES), max_size=3),
+                                st.lists(st.sampled_from(WATCHES), max_size=3),
+                                st.lists(st.sampled_from(WATCHES), max_size=3),
+                                # a large structure and parts of it, in any order
+                                st.lists(st.sampled_from(['NEST.v', 'NEST.v[0][0]', 'NEST.v[9]', 'NEST.v[0]', 'a']),
+                                         min_size=2, max_size=3)),
             'actions': st.lists(st.sampled_from(['snapshot', 'log', 'snapshot', 'snapshot+log']), min_size=1, max_size=3),
             'frame_type': st.sampled_from(['single_frame', 'all_frame', 'all_frame']),
-            'max_variables': st.one_of(st.just(1000), st.integers(1, 14)),
+            # unlimited in practice, cut inside the frame's own variables, or cut somewhere inside the watches
+            'max_variables': st.one_of(st.just(1000), st.integers(1, 14), st.sampled_from([60, 150, 200, 230, 260, 300, 350, 420, 500])),
             'me': st.booleans(),
             'capture': st.booleans(),
             # the paused frame is the outermost one (nothing below it) and holds its own locals() in a local
